@@ -128,6 +128,16 @@ class ListMapModel(Model):
                         out.append(("set", name, i, 2))
                     if full:
                         out.append(("addset", name, i, 1))
+                        # the other op-assignments through an index; enabled where the result stays inside the value alphabet
+                        if 0 <= i < n:
+                            cur = lst.items[i]
+                            if isinstance(cur, int):
+                                if cur >= 1:
+                                    out.append(("opset", name, i, "-=", 1))
+                                if cur <= 1:
+                                    out.append(("opset", name, i, "*=", 2))
+                                out.append(("opset", name, i, "/=", 2))
+                                out.append(("opset", name, i, "%=", 2))
                 if full:
                     out += [("reverse", name), ("clear", name), ("map", name), ("filter", name), ("len", name), ("str", name)]
                     for v in (0, 2):
@@ -175,6 +185,11 @@ class ListMapModel(Model):
                     out.append(("mread", name, k))
                     if full:
                         out += [("maddset", name, k, 1), ("mreplace", name, k, 5), ("mremove", name, k), ("mcontains", name, k)]
+                        cur = st[name].d.get(k)
+                        if isinstance(cur, int):
+                            out += [("mopset", name, k, "-=", 1), ("mopset", name, k, "/=", 2), ("mopset", name, k, "%=", 3)]
+                            if cur <= 4:
+                                out.append(("mopset", name, k, "*=", 2))
                 if full:
                     out += [("mlen", name), ("mkeys", name), ("mvalues", name), ("mpairs", name), ("mclear", name)]
             out += [("mclone", "m2", "m1"), ("mclone", "ma", "m1"), ("alias", "ma", "m2"), ("mlit", "m2"), ("mlen", "m2")]
@@ -218,6 +233,14 @@ class ListMapModel(Model):
             if not inrange(lst, op[2]):
                 return obs, True
             lst.items[op[2]] = lst.items[op[2]] + op[3]
+        elif k in ("opset", "mopset"):
+            box = st[op[1]].items if k == "opset" else st[op[1]].d
+            if k == "opset" and not inrange(st[op[1]], op[2]):
+                return obs, True
+            if k == "mopset" and op[2] not in box:
+                return obs, True
+            a, b = box[op[2]], op[4]
+            box[op[2]] = {"-=": a - b, "*=": a * b, "/=": int(a / b), "%=": a - b * int(a / b)}[op[3]]
         elif k == "reverse":
             st[op[1]].items.reverse()
         elif k == "clear":
@@ -325,6 +348,10 @@ class ListMapModel(Model):
             s = with_idx(op[2], f"{op[1]}[{iv}] = {lit(op[3])}\n")
         elif k == "addset":
             s = with_idx(op[2], f"{op[1]}[{iv}] += {lit(op[3])}\n")
+        elif k == "opset":
+            s = with_idx(op[2], f"{op[1]}[{iv}] {op[3]} {lit(op[4])}\n")
+        elif k == "mopset":
+            s = f"{op[1]}[{lit(op[2])}] {op[3]} {op[4]}\n"
         elif k == "reverse":
             s = f"{op[1]}.reverse()\n"
         elif k == "clear":
